@@ -497,3 +497,148 @@ func (p *prover) lenSummaryFacts(s *factSet, t term, seen map[term]bool) {
 		}
 	}
 }
+
+// ---------------------------------------------------------------------------
+// Verified configuration values: an accepted configuration passed VerifyConfig (C16) and is not modified
+// afterwards, so a field that VerifyConfig rejects when `field <= 0` is >= 1 wherever the configuration is read.
+// Rule C07.R1c checks that the rejecting branch exists.
+
+var f6ConfigLower = map[string]int64{
+	"transform/ttruncate.Config.MaxLength":      1,
+	"transform/textractspecial.Config.MaxLength": 1,
+}
+
+func (p *prover) verifyConfigLower(c *Ctx) {
+	var keys []string
+	for k := range f6ConfigLower {
+		keys = append(keys, k)
+	}
+	sort.Strings(keys)
+	for _, k := range keys {
+		i := strings.LastIndex(k, ".")
+		typ, field := k[:i], k[i+1:]
+		j := strings.LastIndex(typ, ".")
+		fn := c.P.Fn(typ[:j] + ".(*" + typ[j+1:] + ").VerifyConfig")
+		found := false
+		var at ssa.Instruction
+		for _, b := range fn.Blocks {
+			iff, ok := b.Instrs[len(b.Instrs)-1].(*ssa.If)
+			if !ok {
+				continue
+			}
+			bo, ok := iff.Cond.(*ssa.BinOp)
+			if !ok {
+				continue
+			}
+			lhs := canonOf(bo.X)
+			kv, isK := constInt(bo.Y)
+			if lhs != "recv."+field || !isK {
+				continue
+			}
+			rejectsBelow := (bo.Op == token.LEQ && kv == f6ConfigLower[k]-1) || (bo.Op == token.LSS && kv == f6ConfigLower[k])
+			if !rejectsBelow {
+				continue
+			}
+			// the true edge must end in a non-nil error return without rejoining
+			ok2 := true
+			seenB := map[*ssa.BasicBlock]bool{}
+			work := []*ssa.BasicBlock{b.Succs[0]}
+			for len(work) > 0 {
+				x := work[len(work)-1]
+				work = work[:len(work)-1]
+				if seenB[x] {
+					continue
+				}
+				seenB[x] = true
+				if x == b.Succs[1] {
+					ok2 = false
+				}
+				if r, isRet := x.Instrs[len(x.Instrs)-1].(*ssa.Return); isRet {
+					if kc, isC := r.Results[len(r.Results)-1].(*ssa.Const); isC && kc.IsNil() {
+						ok2 = false
+					}
+				}
+				work = append(work, x.Succs...)
+			}
+			if ok2 {
+				found = true
+				at = iff
+			}
+		}
+		pos := fn.Pos()
+		if at != nil {
+			pos = at.Pos()
+		}
+		c.check(found, "C07.R1c", fn, fmt.Sprintf("VerifyConfig rejects %s < %d", field, f6ConfigLower[k]), pos,
+			"the branch on the field returns an error: an accepted configuration has the field at or above the bound",
+			"no rejecting branch found: run-time code slices by this value assuming it is positive")
+		p.configLowerOK[k] = found
+	}
+}
+
+// intFieldLower: immutable integer fields whose every stored value is provably >= 0 / >= 1
+func (p *prover) intFieldLowerFacts() map[string]int64 {
+	if p.intLower != nil {
+		return p.intLower
+	}
+	p.intLower = map[string]int64{}
+	type storeT struct {
+		fn *ssa.Function
+		at *ssa.Store
+	}
+	byField := map[string][]storeT{}
+	for _, fn := range p.c.P.universe {
+		if fn.Blocks == nil {
+			continue
+		}
+		eachInstr(fn, func(in ssa.Instruction) {
+			st, ok := in.(*ssa.Store)
+			if !ok || !isIntType(st.Val.Type()) {
+				return
+			}
+			fa, ok := strip(st.Addr).(*ssa.FieldAddr)
+			if !ok {
+				return
+			}
+			name := fieldName(fa.X.Type(), fa.Field)
+			if p.immutableField[name] {
+				byField[name] = append(byField[name], storeT{fn, st})
+			}
+		})
+	}
+	var names []string
+	for n := range byField {
+		names = append(names, n)
+	}
+	sort.Strings(names)
+	saved := p.depth
+	for _, n := range names {
+		best := int64(-1)
+		for _, lo := range []int64{1, 0} {
+			ok := true
+			for _, st := range byField[n] {
+				p.depth = 0
+				if !p.prove(st.fn, st.at, zeroT(), valT(st.at.Val), -lo, nil) {
+					ok = false
+					break
+				}
+			}
+			if ok {
+				best = lo
+				break
+			}
+		}
+		if best >= 0 {
+			p.intLower[n] = best
+		}
+	}
+	p.depth = saved
+	if os.Getenv("SLOGCHECK_F6INV") != "" {
+		for _, n := range names {
+			if lo, ok := p.intLower[n]; ok {
+				fmt.Printf("F6INTFIELD %s >= %d\n", n, lo)
+			}
+		}
+	}
+	return p.intLower
+}
